@@ -351,6 +351,44 @@ def nth_assign(fn, target, occurrence):
     return hits[occurrence]
 
 
+def expect_skeleton(fn, want):
+    """The top-level statements of fn (doc string aside) as `Kind` / `If:<test>`: the model of fn follows this control skeleton
+    (guards first, then the straight-line body); a statement more or fewer - an early return, an extra guard - is not modelled."""
+    got = []
+    for st in fn.body:
+        if isinstance(st, ast.Expr) and isinstance(st.value, ast.Constant):
+            continue
+        got.append(type(st).__name__ + (":" + ast.unparse(st.test) if isinstance(st, ast.If) else ""))
+    if got != want:
+        raise Untranslatable("%s: statement skeleton %s differs from the modelled %s" % (fn.name, got, want), fn)
+
+
+def store_census(fn, expect):
+    """How often each of the names in `expect` is written anywhere in fn (plain, tuple, subscript and augmented assignments).  The
+    model takes a fixed number of definitions of these intermediates; one more or one fewer means the data flow changed."""
+    import collections
+    c = collections.Counter()
+    for n in ast.walk(fn):
+        tg = n.targets if isinstance(n, ast.Assign) else [n.target] if isinstance(n, (ast.AugAssign, ast.AnnAssign)) else []
+        for t_ in tg:
+            for e_ in (t_.elts if isinstance(t_, (ast.Tuple, ast.List)) else [t_]):
+                b = e_
+                while isinstance(b, (ast.Subscript, ast.Attribute, ast.Starred)):
+                    b = b.value
+                if isinstance(b, ast.Name):
+                    c[b.id] += 1
+        if isinstance(n, ast.Call) and isinstance(n.func, ast.Attribute) and n.func.attr.endswith("_") and not n.func.attr.startswith("_"):
+            b = n.func.value                      # in-place tensor methods (x.add_(..), x.masked_scatter_(..)) write too
+            while isinstance(b, (ast.Subscript, ast.Attribute)):
+                b = b.value
+            if isinstance(b, ast.Name):
+                c[b.id] += 1
+    bad = {k: (v, c.get(k, 0)) for k, v in expect.items() if c.get(k, 0) != v}
+    if bad:
+        raise Untranslatable("%s: the number of writes to %s differs from what the model assumes (expected, found): %s"
+                             % (fn.name, sorted(bad), bad), fn)
+
+
 # --------------------------------------------------------------------------
 # statement blocks -> let chains
 # --------------------------------------------------------------------------
